@@ -326,7 +326,7 @@ theorem liveL_filter (slots : List Slot) : liveL (slots.filter (·.live)) = live
 /-- shape of a successful `mpt_command_reserve`: the reserved element sits between elements whose live registrations
     are those of the table before; its id names none of them -/
 theorem commandReserve_some {tab tab' : Option Table} {w idx : Nat} (h : commandReserve tab w = (tab', some idx)) :
-    ∃ a b idv m cap typed, tab' = some ⟨a ++ ⟨idv, some .logReply, m⟩ :: b, cap, typed⟩ ∧ idx = a.length ∧
+    ∃ a b idv m cap, tab' = some ⟨a ++ ⟨idv, some .logReply, m⟩ :: b, cap⟩ ∧ idx = a.length ∧
       liveL a ++ liveL b = liveList tab ∧ (∀ s, s ∈ a ++ b → (∃ t, tab = some t ∧ s ∈ t.slots) ∨ s.live = false) ∧
       (∀ r, (idv, r) ∉ liveList tab) := by
   unfold commandReserve at h
@@ -337,7 +337,7 @@ theorem commandReserve_some {tab tab' : Option Table} {w idx : Nat} (h : command
     · -- first use
       simp only [Prod.mk.injEq, Option.some.injEq] at h
       obtain ⟨rfl, rfl⟩ := h
-      refine ⟨[], List.replicate 7 ⟨0, none, 0⟩, 1, 1, _, false, rfl, rfl, ?_, ?_, ?_⟩
+      refine ⟨[], List.replicate 7 ⟨0, none, 0⟩, 1, 1, _, rfl, rfl, ?_, ?_, ?_⟩
       · simp [liveList, liveL, Slot.live]
       · intro s hs
         simp only [List.nil_append, List.mem_replicate] at hs
@@ -350,11 +350,9 @@ theorem commandReserve_some {tab tab' : Option Table} {w idx : Nat} (h : command
       split at h
       · cases h
       · rename_i m hm
-        split at h
-        · cases h
         · simp only [Prod.mk.injEq, Option.some.injEq] at h
           obtain ⟨rfl, rfl⟩ := h
-          refine ⟨st.slots.take st.used, [], UInt64.ofNat m, m, _, _, rfl, rfl, ?_, ?_, ?_⟩
+          refine ⟨st.slots.take st.used, [], UInt64.ofNat m, m, _, rfl, rfl, ?_, ?_, ?_⟩
           · rw [htake, liveL_filter]; simp [liveList, liveL]
           · intro s hs
             simp only [List.append_nil, htake, List.mem_filter] at hs
@@ -387,33 +385,32 @@ theorem commandReserve_some {tab tab' : Option Table} {w idx : Nat} (h : command
 /-- a refused `mpt_command_reserve` may have compacted the table, nothing else -/
 theorem commandReserve_none {tab tab' : Option Table} {w : Nat} (h : commandReserve tab w = (tab', none)) :
     liveList tab' = liveList tab ∧
-      (∀ t', tab' = some t' → ∀ s, s ∈ t'.slots → ∃ t, tab = some t ∧ s ∈ t.slots) := by
+      (∀ t', tab' = some t' → ∃ t, tab = some t ∧ ∀ s, s ∈ t'.slots → s ∈ t.slots) := by
   unfold commandReserve at h
   simp only at h
   split at h
   · simp only [Prod.mk.injEq, and_true] at h
     subst h
-    exact ⟨rfl, fun t' ht s hs => ⟨t', ht, hs⟩⟩
+    exact ⟨rfl, fun t' ht => ⟨t', ht, fun s hs => hs⟩⟩
   · split at h
     · cases h
     · rename_i t
       obtain ⟨htake, _⟩ := compactLoop_spec t.slots
       generalize compactLoop ⟨t.slots, none, 0, 0⟩ 0 t.slots.length = st at h htake
       have key : liveList (some { t with slots := st.slots.take st.used }) = liveList (some t) ∧
-          (∀ t', some { t with slots := st.slots.take st.used } = some t' → ∀ s, s ∈ t'.slots → ∃ t0, some t = some t0 ∧ s ∈ t0.slots) := by
+          (∀ t', some { t with slots := st.slots.take st.used } = some t' → ∃ t0, some t = some t0 ∧ ∀ s, s ∈ t'.slots → s ∈ t0.slots) := by
         refine ⟨?_, ?_⟩
         · simp only [liveList_some, htake, liveL_filter]
-        · intro t' ht s hs
+        · intro t' ht
           cases ht
+          refine ⟨t, rfl, ?_⟩
+          intro s hs
           simp only [htake, List.mem_filter] at hs
-          exact ⟨t, rfl, hs.1⟩
+          exact hs.1
       split at h
       · simp only [Prod.mk.injEq, and_true] at h
         subst h; exact key
-      · split at h
-        · simp only [Prod.mk.injEq, and_true] at h
-          subst h; exact key
-        · cases h
+      · cases h
 
 
 end Mpt.Dispatch
